@@ -126,6 +126,11 @@ def replay(case, acc):
     check_text(acc, case['text'], (), None, case.get('origin', 'replay'))
 
 
+from harness.shrink import text_shrinker  # noqa: E402
+shrink = text_shrinker(replay, 'text')
+
+
+
 def nontrivial(info, text):
     if info.get('calmjs') == 'ok' and info.get('ref') == 'ok' and 'ctree' in info:
         n, depth, kinds = canon.tree_stats(info['ctree'])
